@@ -100,6 +100,15 @@ Theorem C14_no_fuel :
 Proof. exact search_no_fuel. Qed.
 Print Assumptions C14_no_fuel.
 
+(* ... also with ANY condition list and ANY limit/offset handler (used by C19). *)
+Theorem C14_no_fuel_all_conditions :
+  forall (d : db), adj_ok (gr d) ->
+  forall (a : algo) (reverse : bool) (origin : Z) (conds : list cond) (h : handler_kind),
+    graph_index (gr d) origin = true \/ is_node (gr d) origin || is_edge (gr d) origin = false ->
+    graph_search rv_fixed d a reverse origin conds h <> None.
+Proof. exact graph_search_no_fuel. Qed.
+Print Assumptions C14_no_fuel_all_conditions.
+
 (* Defect 1 (repaired by fix: 23600df, flag fix_edge_origin): before the fix a search from an
    edge also returned the edge's older sibling, which is not reachable from it.
    History: insert 2 nodes; insert edge 1->2 (-3); insert edge 1->2 (-4); search from -4. *)
